@@ -21,6 +21,9 @@ OPN = {0: "contains", 1: "empty", 2: "extend(point)", 3: "extend(box)", 4: "clam
        40: "xfmBounds", 41: "xfmPoint", 50: "intersectRayBox"}
 SIG_DISJ = "C05-disjoint-inverted-empty-operand"
 SIG_RAY = "C05-intersectRayBox-empty-box"
+PROP_FILES = ("PropertiesOrd.v", "PropertiesId.v", "PropertiesBox.v", "PropertiesDef.v", "PropertiesCenter.v", "PropertiesRefuted.v", "PropertiesR.v")
+P124 = Fr(2) ** 124      # float boxes with huge extents: k * 2^124, |k| <= 15 (all sums/halves exact or overflowing)
+P24 = Fr(2) ** 24        # int boxes near INT_MAX: k * 2^24, |k| <= 127 (exactly convertible to float)
 FLT_MAX = Fr(2 ** 128 - 2 ** 104)
 
 
@@ -272,6 +275,69 @@ def gen_cases(ctx):
         g.add(40, code, m + lo + hi, "xfm:" + k)
         p, _ = g.point_near(lo, hi, "f", False)
         g.add(41, 31, m + p, "xfmPoint")
+    # exactly diagonal / axis-permuting / degenerate linear parts with negative entries (mirrors, 90 degree turns built from integers,
+    # point reflection, zero rows or columns), box3f and box3fa
+    def structured_map():
+        fam = r.choice(["diag", "diag", "perm", "perm", "reflect", "zero_col", "zero_row", "diag_half"])
+        sc = lambda: Fr(r.choice((-3, -2, -1, 1, 2, 3)))
+        cols = [[Fr(0)] * 3 for _ in range(3)]          # cols[j][k] = component k of column j (vx, vy, vz)
+        if fam in ("diag", "diag_half"):
+            for j in range(3): cols[j][j] = sc() / (2 if fam == "diag_half" else 1)
+            if all(cols[j][j] > 0 for j in range(3)):
+                j = r.randrange(3); cols[j][j] = -cols[j][j]                                  # at least one mirror
+        elif fam == "perm":
+            perm = r.choice([(0, 1, 2), (1, 0, 2), (0, 2, 1), (2, 1, 0), (1, 2, 0), (2, 0, 1)])
+            for j in range(3): cols[j][perm[j]] = sc()
+        elif fam == "reflect":
+            for j in range(3): cols[j][j] = Fr(-1)
+        elif fam == "zero_col":
+            for j in range(3): cols[j][j] = sc()
+            cols[r.randrange(3)] = [Fr(0)] * 3
+        else:
+            for j in range(3): cols[j][j] = sc()
+            k = r.randrange(3)
+            for j in range(3): cols[j][k] = Fr(0)
+        return cols[0] + cols[1] + cols[2] + [Fr(r.randint(-8, 8)) for _ in range(3)], fam
+    for _ in range(ctx.pick(240, 2000)):
+        m, fam = structured_map()
+        lo, hi, k = g.box(3, "f", kind=r.choice(["normal", "normal", "normal", "degenerate", "point"]))
+        g.add(40, r.choice((31, 32)), m + lo + hi, "xfm_structured:%s:%s" % (fam, k))
+    # boxes with HUGE extents of both signs: float k*2^124 (and +-FLT_MAX), int k*2^24 (|coords| up to 2.13e9): center only.
+    # lower_i+upper_i representable but the extent upper_i-lower_i often not, and the converse; the midpoint is always representable
+    g.tail = []
+    def huge_pair(ty, want_sum_overflow):
+        K, P, lim = (15, P124, 16) if ty == "f" else (127, P24, 128)
+        for _ in range(200):
+            a, b = r.randint(-K, K), r.randint(-K, K)
+            if a == b: continue
+            a, b = min(a, b), max(a, b)
+            if (abs(a + b) >= lim) == want_sum_overflow:
+                return a * P, b * P
+        return (-K * P, K * P) if not want_sum_overflow else (K * P, (K - 1) * P)
+    for code, (name, n, ty) in INSTS.items():
+        for j in range(ctx.pick(12, 60)):
+            lo, hi = [], []
+            for i in range(n):
+                a, b = huge_pair(ty, False)
+                if j % 4 == 0 and i == j // 4 % n:
+                    a, b = (-FLT_MAX, FLT_MAX) if ty == "f" else (Fr(-2000000000), Fr(2000000000))
+                if j % 4 == 1 and i == 0 and ty == "i":
+                    a, b = Fr(IMIN), Fr(IMAX)
+                lo.append(a); hi.append(b)
+            for op in ((6, 22) if n >= 2 else (6,)):
+                (g.tail if ty == "i" else g.cases).append((op, code, lo + hi, "center_huge"))
+                g.hist["%s/%s" % (OPN[op], name)] = g.hist.get("%s/%s" % (OPN[op], name), 0) + 1
+                g.kinds["center_huge"] = g.kinds.get("center_huge", 0) + 1
+        for j in range(3):
+            lo, hi = [], []
+            ov = r.randrange(n)
+            for i in range(n):
+                a, b = huge_pair(ty, i == ov)
+                lo.append(a); hi.append(b)
+            # lower_i + upper_i is outside the element type's range although the midpoint is representable
+            # (the overflow of the pre-repair expression .5f*(lower+upper), fixed by /repo 2d2c457): ordinary cases now
+            (g.tail if ty == "i" else g.cases).append((6, code, lo + hi, "center_huge_sum"))
+            g.kinds["center_huge_sum"] = g.kinds.get("center_huge_sum", 0) + 1
     for _ in range(ctx.pick(300, 3000)):
         n = r.choice((2, 3))
         code = 21 if n == 2 else 31
@@ -300,6 +366,8 @@ def gen_cases(ctx):
             if idx % stride: continue
             v = [Fr(x) for x in al + ah + bl + bh]
             for op in (20, 21, 23): g.add(op, 20, v, "exh2d")
+    # int boxes near INT_MAX go last: on a tree where they trip UBSan the rest of the batch has already been observed
+    g.cases += g.tail
     return g
 
 
@@ -334,7 +402,7 @@ def regen(ctx):
 
 def run(ctx):
     regen(ctx)
-    ctx.coq_check(("Properties.v",))
+    ctx.coq_check(PROP_FILES)
     model = ctx.extract(snippets=["conv_N.ml", "conv_Z.ml", "conv_nat.ml"])
     exes = ctx.cxx_many([dict(sources=["harness.cpp"], out="harness", sanitize="asan"),
                          dict(sources=["harness.cpp"], out="harness_nosimd", sanitize="asan", flags=["-DRKCOMMON_NO_SIMD", "-DC05_ONLY_CASES"])])
@@ -357,17 +425,26 @@ def run(ctx):
         rc, ilines, ierr = vlib.run_lines(ctx, e, ["cases"], lines)
         if rc != 0 or len(ilines) != len(lines):
             n = len(ilines)
+            cc = cases[n] if n < len(cases) else None
             ctx.violation("harness %s crashed (rc=%d): sanitizer report / abort on the real code" % (label, rc),
                           {"label": label, "stderr_tail": ierr[-3000:], "case": lines[n] if n < len(lines) else None,
+                           "operation": OPN[cc[0]] if cc else None, "instantiation": INSTS[cc[1]][0] if cc else None,
+                           "inputs": toks(cc[2]) if cc else None,
                            "required": "no crash, no sanitizer report"}, found_input=n < len(lines))
-            continue
-        ctx.count(len(lines))
+        ctx.count(len(ilines))
         for i, (c, il, ml) in enumerate(zip(cases, ilines, mlines)):
             op, code, nums, kind = c
-            if il.endswith(" ~") or (op == 50 and "SSE" in label):
-                # not exactly representable (only the SSE reciprocal of intersectRayBox): compared in fuzz mode instead
+            flagged = il.endswith(" ~")
+            if flagged: il = il[:-2]
+            if op == 50 and (flagged or "SSE" in label):
+                # not exactly representable (the SSE reciprocal of intersectRayBox): compared in fuzz mode instead
                 inexact[OPN[op]] = inexact.get(OPN[op], 0) + 1
                 continue
+            if flagged:
+                # FE_INEXACT / overflow was raised although every intermediate of a correct evaluation is representable by construction
+                # of the case: the definition-based oracle below still decides; only the comparison with the exact model is skipped
+                inexact[OPN[op]] = inexact.get(OPN[op], 0) + 1
+                ml = il
             exp = oracle(op, code, nums)
             exps = show_obs(exp) if exp is not None else None
             ok_oracle = exps is None or exps == il
@@ -393,7 +470,7 @@ def run(ctx):
     # non-trivial cases: the input sits on a boundary (point on a face, boxes sharing a face coordinate, empty / inverted / degenerate operand)
     for c, l in zip(cases, lines):
         k = c[3]
-        if any(w in k for w in ("face", "touching", "empty", "inverted", "degenerate", "point", "identical", "grazing", "axis_parallel", "inside", "exh2d", "some_axes")):
+        if any(w in k for w in ("face", "touching", "empty", "inverted", "degenerate", "point", "identical", "grazing", "axis_parallel", "inside", "exh2d", "some_axes", "xfm_structured", "center_huge")):
             ctx.nontriv(l)
     # in-harness exhaustive grids
     rc, out, err = ctx.run_exe(exe, ["exh"] + (["thorough"] if ctx.thorough() else []), timeout=900)
@@ -432,6 +509,21 @@ def run(ctx):
                           {"clause": cl, "input": l[5:], "replay": "build/C05/harness fuzz %d %d" % (ctx.seed, nf)})
         elif l.startswith("KNOWN intersectRayBox-empty-box"):
             known.setdefault(SIG_RAY, (l, "", ""))
+    # center(): midpoint within the rounding of .5f*lower + .5f*upper (float: one rounding, exact when representable; int: via float)
+    nc = ctx.pick(100000, 1000000)
+    rc, out, err = ctx.run_exe(exe, ["fuzzc", str(ctx.seed), str(nc)], timeout=900)
+    done = [l for l in out.splitlines() if l.startswith("DONE")]
+    if rc != 0 or not done:
+        ctx.violation("harness fuzzc (center of random float / int boxes) crashed (rc=%d): sanitizer report / abort on the real code" % rc,
+                      {"stderr_tail": err[-3000:], "stdout_tail": out[-1000:], "replay": "build/C05/harness fuzzc %d %d" % (ctx.seed, nc)}, found_input=False)
+    else:
+        ctx.cov["center_fuzz"] = done[0]
+        ctx.count(int(done[0].split("checks=")[1].split()[0]))
+    for l in out.splitlines():
+        if l.startswith("FAIL "):
+            ctx.violation("center() is not the midpoint within rounding", {"clause": "center_midpoint", "input": l[5:],
+                          "replay": "build/C05/harness fuzzc %d %d" % (ctx.seed, nc)})
+            break
     for sig, (l, obs, req) in known.items():
         ctx.violation("known deviation reproduced: " + sig, {"signature": sig, "input": l, "observed": obs, "required": req}, signature=sig)
     ctx.cov["op_histogram"] = g.hist
@@ -453,7 +545,11 @@ def run(ctx):
                         "float rounding of xfmBounds / intersectRayBox is not modelled in Coq (ideal reading over R); it is compared numerically with tolerances "
                         "8*eps*sum|m_kj p_j| (xfmBounds) and 64*eps*(|lo|+|hi|+|org|+|t dir|) + 2|t|FLT_MIN (intersectRayBox; rcp_safe reads |dir_i|<FLT_MIN as +-FLT_MIN)",
                         "the generated text is translated with -DRKCOMMON_NO_SIMD (rcp(x) = 1.f/x); the SSE branch computes the same value by estimate + one Newton step",
+                        "center(): oracle = the exact midpoint (int: truncated toward zero) on every exact case (all generated midpoints are representable, "
+                        "float bounds >= 2^-125 in magnitude, int bounds multiples of 2^24 or small); random boxes: float within one rounding and exact when "
+                        "representable, int exact for |bounds| <= 2^23 and within 1 + 2^-22 max|bound| otherwise (the int route goes through binary32); "
+                        "int boxes with both bounds above INT_MAX-128 are not generated (float(bound) = 2^31, conversion back to int is undefined)",
                         "theorems about emptiness/disjointness/extend-leastness-as-sets assume operands that are non-empty or the canonical empty box; "
                         "inverted boxes are covered by the *_refuted theorems and the two known findings"]
     if ctx.thorough():
-        ctx.coq_thorough_chk(["C05.Properties"])
+        ctx.coq_thorough_chk(["C05." + f[:-2] for f in PROP_FILES])
